@@ -15,11 +15,13 @@ POOL = {
     "K3": (3, [(1, 2), (1, 3), (2, 3)]),
     "K2K1": (3, [(1, 2)]),
     "K1": (1, []),
+    "P4": (4, [(1, 2), (2, 3), (3, 4)]),
+    "C5": (5, [(1, 2), (2, 3), (3, 4), (4, 5), (1, 5)]),
 }
 
 META = dict(
     bounds=dict(
-        quick="lists of 2 and 3 graphs drawn from the shapes {K1, K2, 2K1, P3, K3, K2+K1} (equal shapes with independent "
+        quick="lists of 2 and 3 graphs drawn from the shapes {K1, K2, 2K1, P3, K3, K2+K1} plus three all-carbon 4-chains with symbolic bond orders and three all-carbon 5-rings with exactly two double bonds each (equal composition, different placement) (equal shapes with independent "
               "symbolic labels, so duplicates, relabelled copies and near-misses all arise as label assignments); element "
               "in {C,N}, charge in {0,1}, order in {1,2}; pre-grouping attribute None or the node count; every list "
               "order (solver-chosen permutation); graphs on disjoint node ids and on one shared id set; representative library in arrival and in reversed order; batch sizes 1..m and one-shot; incremental lib_check",
@@ -50,7 +52,7 @@ def partition(classes):
     return {frozenset(s) for s in d.values()}
 
 
-def h_cluster(E, shapes, use_attr, same_ids=False):
+def h_cluster(E, shapes, use_attr, same_ids=False, carbon_only=False, doubles=None):
     from synkit.Graph.Matcher.graph_cluster import GraphCluster
     from synkit.Graph.Matcher.batch_cluster import BatchCluster
 
@@ -58,8 +60,14 @@ def h_cluster(E, shapes, use_attr, same_ids=False):
     graphs = []
     for i, sname in enumerate(shapes):
         n, es = POOL[sname]
-        g, _ = sym_mol(E, "g%d" % i, n, es, elements=("C", "N"), hcounts=(0,), charges=(0, 1), orders=(1, 2),
+        g, _ = sym_mol(E, "g%d" % i, n, es, elements=("C",) if carbon_only else ("C", "N"), hcounts=(0,),
+                       charges=(0,) if carbon_only else (0, 1), orders=(1, 2),
                        node_ids=[(0 if same_ids else 10 * i) + k + 1 for k in range(n)])
+        if doubles is not None:
+            # exactly `doubles` double bonds per graph: same composition, different placement
+            from symx import COUNT
+
+            E.assume(EQ(COUNT([EQ(g[u][v]["order"], 2) for u, v in g.edges]), doubles))
         graphs.append(g)
     att = (lambda g: "n%d" % g.number_of_nodes()) if use_attr else (lambda g: None)
     akey = "att" if use_attr else None
@@ -135,6 +143,21 @@ def h_cluster(E, shapes, use_attr, same_ids=False):
         bad.append(AND(NOT(OR(match_any)), c in prev_classes))
         E.check(OR(bad), "incremental-item-joins-its-isomorphic-class-or-a-fresh-one", dict(arrival=perm, item=i, cls=c))
         seen.append((i, c))
+    # the same classifier object against a second, independent library of the same length (classes numbered in the
+    # opposite arrival order): every item must get the class of its isomorphic representative *in that library*
+    if m >= 2:
+        lib2 = []
+        other = BatchCluster()
+        cls2 = {}
+        for i in reversed(perm):
+            e2, lib2 = other.lib_check(dict(g=graphs[i], att=att(graphs[i]), idx=i), lib2, rule_key="g", attribute_key=akey)
+            cls2[i] = e2["class"]
+        if len(lib2) == len(templates):
+            for i in perm:
+                e3, _ = bc.lib_check(dict(g=graphs[i], att=att(graphs[i]), idx=i), [dict(t) for t in lib2], rule_key="g",
+                                     attribute_key=akey)
+                E.check(e3["class"] != cls2[i], "classifier-object-re-used-against-another-library",
+                        dict(arrival=perm, item=i, got=e3["class"], want=cls2[i]))
     E.note(nontrivial=(m == 2) or (1 < len(p0) < m))
     E.observe(sorted(sorted(s) for s in p0))
 
@@ -154,6 +177,8 @@ def shards(tier, seed):
                ["K1", "K1", "K1"], ["P3", "K2", "P3"]]
     if tier == "thorough":
         triples += [["K3", "K3", "K3"], ["K2K1", "K2K1", "K2K1"], ["K3", "P3", "K3"]]
+    sh.append(dict(h="cluster", params=dict(shapes=["P4", "P4", "P4"], use_attr=False, carbon_only=True)))
+    sh.append(dict(h="cluster", params=dict(shapes=["C5", "C5", "C5"], use_attr=False, carbon_only=True, doubles=2)))
     sh.append(dict(h="cluster", params=dict(shapes=["K2", "P3", "E2"], use_attr=True)))
     sh.append(dict(h="cluster", params=dict(shapes=["P3", "K2", "K2K1"], use_attr=True)))
     for i, t in enumerate(triples):
